@@ -66,10 +66,10 @@ def ct_scripts(rng, tier):
     return out
 
 def build_ct(run, cfg, cc, opt):
-    v = C.build_variant(run.work, cfg, cc, opt, "", extra=("-g",))
+    v = C.build_variant(run.work, cfg, cc, opt, "", extra=("-gdwarf-4",))
     drv = v.driver + "_ct"
     if not os.path.exists(drv):
-        rc, out, err = C.sh([cc, "-std=gnu99", opt, "-g", "-DDRIVER_WITH_VALGRIND", "-I" + os.path.join(v.dir, "include"),
+        rc, out, err = C.sh([cc, "-std=gnu99", opt, "-gdwarf-4", "-DDRIVER_WITH_VALGRIND", "-I" + os.path.join(v.dir, "include"),
                              "-I" + os.path.join(v.dir, "src"), "-o", drv, os.path.join(C.HARNESS, "driver.c"),
                              os.path.join(v.dir, "src", "libskinny.a"), "-Wl,--wrap=calloc", "-Wl,--wrap=free"])
         if rc != 0:
